@@ -4,7 +4,7 @@
 patch="$(readlink -f "$1")"; shift
 cd /repo || exit 2
 if ! git diff --quiet; then echo "/repo has uncommitted changes"; exit 2; fi
-if git apply --check "$patch" 2>/dev/null; then git apply "$patch"; elif git apply -3 "$patch" 2>/dev/null; then git reset -q; else echo "patch does not apply: $patch"; exit 3; fi
+if git apply --check "$patch" 2>/dev/null; then git apply "$patch"; elif git apply -3 "$patch" 2>/dev/null; then git reset -q; else git reset -q; git checkout -- .; echo "patch does not apply: $patch"; exit 3; fi
 for id in "$@"; do
   out=$(cd /verif && tools/check "$id" --tier quick 2>&1); rc=$?
   echo "$id exit=$rc $(echo "$out" | grep -E '^VIOLATION|^ERROR' | head -2 | tr '\n' ' ')"
